@@ -335,3 +335,331 @@ Qed.
 
 Lemma cntb_supd_beyond l j v n : (n <= j)%nat -> cntb (supd l j v) n = cntb l n.
 Proof. intros H. apply cntb_ext. intros k Hk. apply snth_supd_other. lia. Qed.
+
+(* ================================================================================================================= *)
+(* FreeConstraintPS / EmptyConstraintPS: a row is restored                                                          *)
+(* ================================================================================================================= *)
+Definition restore_row (i oi : nat) (v yv : Q) (t : st) : st :=
+  mkst (sx t) (unswap (sy t) i oi yv) (unswap (ss t) i oi v) (sr t) (scs t) (sunswap (srs t) i oi BASIC).
+
+Lemma exec_FreeConstraint_eq i oi row ro t :
+  exec_FreeConstraint i oi row ro t = restore_row i oi (sdot row (sx t)) ro t.
+Proof.
+  unfold exec_FreeConstraint, restore_row, fix_row_idx, unswap, sunswap, set_rs, set_y, set_s, gs, gy, grs.
+  destruct (Nat.eqb i oi); reflexivity.
+Qed.
+
+Lemma exec_EmptyConstraint_eq i oi ro t : exec_EmptyConstraint i oi ro t = restore_row i oi 0 ro t.
+Proof.
+  unfold exec_EmptyConstraint, restore_row, fix_row_idx, unswap, sunswap, set_rs, set_y, set_s, gs, gy, grs.
+  destruct (Nat.eqb i oi); reflexivity.
+Qed.
+
+Section RestoreRow.
+  Variable P : lp.
+  Variable i : nat.
+  Hypothesis Hi : (i < nrows P)%nat.
+  Let P' := red_remove_row P i.
+  Let m1 := (nrows P - 1)%nat.
+
+  Lemma restore_row_prim v t : v == activity P i (sx t) -> prim_ident P' t -> prim_ident P (restore_row i m1 v 0 t).
+  Proof.
+    intros Hv H k Hk. unfold gs, restore_row; cbn [ss sx]. rewrite vnth_unswap.
+    destruct (Nat.eqb_spec k i) as [->|Hki]; [exact Hv|].
+    destruct (Nat.eqb_spec k m1) as [->|Hkm].
+    - assert (Hi' : (i < nrows P')%nat) by (unfold P'; rewrite nrows_remove_row; unfold m1 in *; lia).
+      specialize (H i Hi'). unfold gs in H. rewrite H. unfold activity, P'.
+      rewrite rowi_remove_row by (unfold m1 in *; lia). rewrite Nat.eqb_refl. reflexivity.
+    - assert (Hk' : (k < nrows P')%nat) by (unfold P'; rewrite nrows_remove_row; unfold m1 in *; lia).
+      specialize (H k Hk'). unfold gs in H. rewrite H. unfold activity, P'.
+      rewrite rowi_remove_row by (unfold m1 in *; lia). destruct (Nat.eqb_spec k i); [lia|]. reflexivity.
+  Qed.
+
+  Lemma restore_row_dual v t : dual_ident P' t -> dual_ident P (restore_row i m1 v 0 t).
+  Proof.
+    intros H j Hj. unfold gr, restore_row; cbn [sr sy].
+    specialize (H j Hj). unfold gr in H. rewrite H. unfold P' at 1. cbn [red_remove_row colj cols].
+    unfold m1. rewrite <- matrix_length.
+    rewrite tmat_vec_unswap by (rewrite matrix_length; exact Hi).
+    unfold P'. rewrite matrix_remove_row. change (colj (red_remove_row P i) j) with (colj P j). ring.
+  Qed.
+
+  Lemma restore_row_feas v t : in_bounds (r_lhs (rowi P i)) (r_rhs (rowi P i)) v -> prim_feas P' t -> prim_feas P (restore_row i m1 v 0 t).
+  Proof.
+    intros Hv [Hc Hr]. split.
+    - intros j Hj. apply (Hc j Hj).
+    - intros k Hk. unfold gs, restore_row; cbn [ss]. rewrite vnth_unswap.
+      destruct (Nat.eqb_spec k i) as [->|Hki]; [exact Hv|].
+      destruct (Nat.eqb_spec k m1) as [->|Hkm].
+      + assert (Hi' : (i < nrows P')%nat) by (unfold P'; rewrite nrows_remove_row; unfold m1 in *; lia).
+        specialize (Hr i Hi'). unfold P' in Hr. rewrite rowi_remove_row in Hr by (unfold m1 in *; lia).
+        rewrite Nat.eqb_refl in Hr. exact Hr.
+      + assert (Hk' : (k < nrows P')%nat) by (unfold P'; rewrite nrows_remove_row; unfold m1 in *; lia).
+        specialize (Hr k Hk'). unfold P' in Hr. rewrite rowi_remove_row in Hr by (unfold m1 in *; lia).
+        destruct (Nat.eqb_spec k i); [lia|]. exact Hr.
+  Qed.
+
+  Lemma cs_prop_zero lo up v : cs_prop 0 lo up v.
+  Proof. split; intros H; lra. Qed.
+
+  Lemma restore_row_signs v t : dual_signs P' t -> dual_signs P (restore_row i m1 v 0 t).
+  Proof.
+    intros [Hc Hr]. split.
+    - intros j Hj. apply (Hc j Hj).
+    - intros k Hk. unfold gs, gy, restore_row; cbn [ss sy]. rewrite !vnth_unswap.
+      destruct (Nat.eqb_spec k i) as [->|Hki]; [apply cs_prop_zero|].
+      destruct (Nat.eqb_spec k m1) as [->|Hkm].
+      + assert (Hi' : (i < nrows P')%nat) by (unfold P'; rewrite nrows_remove_row; unfold m1 in *; lia).
+        specialize (Hr i Hi'). unfold P' in Hr. rewrite rowi_remove_row in Hr by (unfold m1 in *; lia).
+        rewrite Nat.eqb_refl in Hr. exact Hr.
+      + assert (Hk' : (k < nrows P')%nat) by (unfold P'; rewrite nrows_remove_row; unfold m1 in *; lia).
+        specialize (Hr k Hk'). unfold P' in Hr. rewrite rowi_remove_row in Hr by (unfold m1 in *; lia).
+        destruct (Nat.eqb_spec k i); [lia|]. exact Hr.
+  Qed.
+
+  Lemma restore_row_count v yv t : basis_count P' t -> basis_count P (restore_row i m1 v yv t).
+  Proof.
+    unfold basis_count, restore_row; cbn [scs srs]. unfold P'. rewrite nrows_remove_row. fold m1.
+    change (ncols (red_remove_row P i)) with (ncols P). intros H.
+    replace (nrows P) with (S m1) by (unfold m1; lia).
+    rewrite cntb_sunswap by (unfold m1; lia). change (b1 BASIC) with 1%nat. lia.
+  Qed.
+End RestoreRow.
+
+Lemma sdot_sp_row P i x : wf_lp P -> (i < nrows P)%nat -> sdot (sp_row P i) x == activity P i x.
+Proof. intros W Hi. unfold sp_row. rewrite sdot_sp_of, activity_sumn by auto. reflexivity. Qed.
+
+(* FreeConstraintPS *)
+Lemma FreeConstraint_identities P i t : wf_lp P -> (i < nrows P)%nat ->
+  prim_ident (red_remove_row P i) t /\ dual_ident (red_remove_row P i) t ->
+  let t' := exec_FreeConstraint i (nrows P - 1) (sp_row P i) 0 t in prim_ident P t' /\ dual_ident P t'.
+Proof.
+  intros W Hi [H1 H2] t'. unfold t'. rewrite exec_FreeConstraint_eq. split.
+  - apply restore_row_prim; auto. now apply sdot_sp_row.
+  - now apply restore_row_dual.
+Qed.
+
+Lemma FreeConstraint_feasibility_and_signs P i t : (i < nrows P)%nat ->
+  r_lhs (rowi P i) = None -> r_rhs (rowi P i) = None ->
+  prim_feas (red_remove_row P i) t /\ dual_signs (red_remove_row P i) t ->
+  let t' := exec_FreeConstraint i (nrows P - 1) (sp_row P i) 0 t in prim_feas P t' /\ dual_signs P t'.
+Proof.
+  intros Hi Hl Hr [H1 H2] t'. unfold t'. rewrite exec_FreeConstraint_eq. split.
+  - apply restore_row_feas; auto. rewrite Hl, Hr. split; exact I.
+  - now apply restore_row_signs.
+Qed.
+
+Lemma FreeConstraint_basis_count P i t : (i < nrows P)%nat ->
+  basis_count (red_remove_row P i) t -> basis_count P (exec_FreeConstraint i (nrows P - 1) (sp_row P i) 0 t).
+Proof. intros Hi H. rewrite exec_FreeConstraint_eq. now apply restore_row_count. Qed.
+
+(* EmptyConstraintPS: row i has no entries and 0 lies between its sides (otherwise the verdict is INFEASIBLE) *)
+Definition empty_row (P : lp) (i : nat) : Prop := forall j, coef P i j == 0.
+
+Lemma EmptyConstraint_identities P i t : wf_lp P -> (i < nrows P)%nat -> empty_row P i ->
+  prim_ident (red_remove_row P i) t /\ dual_ident (red_remove_row P i) t ->
+  let t' := exec_EmptyConstraint i (nrows P - 1) 0 t in prim_ident P t' /\ dual_ident P t'.
+Proof.
+  intros W Hi He [H1 H2] t'. unfold t'. rewrite exec_EmptyConstraint_eq. split.
+  - apply restore_row_prim; auto. rewrite activity_sumn by auto. symmetry. apply sumn_zero.
+    intros k _. cbv beta. pose proof (He k) as E. rewrite E. ring.
+  - now apply restore_row_dual.
+Qed.
+
+Lemma EmptyConstraint_feasibility_and_signs P i t : (i < nrows P)%nat ->
+  in_bounds (r_lhs (rowi P i)) (r_rhs (rowi P i)) 0 ->
+  prim_feas (red_remove_row P i) t /\ dual_signs (red_remove_row P i) t ->
+  let t' := exec_EmptyConstraint i (nrows P - 1) 0 t in prim_feas P t' /\ dual_signs P t'.
+Proof.
+  intros Hi Hb [H1 H2] t'. unfold t'. rewrite exec_EmptyConstraint_eq. split.
+  - now apply restore_row_feas.
+  - now apply restore_row_signs.
+Qed.
+
+Lemma EmptyConstraint_basis_count P i t : (i < nrows P)%nat ->
+  basis_count (red_remove_row P i) t -> basis_count P (exec_EmptyConstraint i (nrows P - 1) 0 t).
+Proof. intros Hi H. rewrite exec_EmptyConstraint_eq. now apply restore_row_count. Qed.
+
+(* ================================================================================================================= *)
+(* FixVariablePS                                                                                                     *)
+(* ================================================================================================================= *)
+Definition fixvar_status (c : cmps) (val lower upper : Q) : vstat :=
+  if Qeq_bool lower upper then FIXED
+  else if eqrel_e c val lower then ON_LOWER else if eqrel_e c val upper then ON_UPPER else ZERO.
+
+Lemma fixvar_status_nonbasic c val lower upper : is_basic (fixvar_status c val lower upper) = false.
+Proof. unfold fixvar_status. destruct (Qeq_bool lower upper), (eqrel_e c val lower), (eqrel_e c val upper); reflexivity. Qed.
+
+Lemma exec_FixVariable_eq c j oj val obj lower upper col t :
+  exec_FixVariable c j oj val obj lower upper true col t =
+  mkst (unswap (sx t) j oj val) (sy t) (sadd col val (ss t)) (unswap (sr t) j oj (obj - sdot col (sy t)))
+       (sunswap (scs t) j oj (fixvar_status c val lower upper)) (srs t).
+Proof.
+  unfold exec_FixVariable, fixvar_status, fix_col_idx, unswap, sunswap, set_x, set_r, set_cs, set_svec, gx, gr, gcs.
+  destruct (Nat.eqb j oj), (Qeq_bool lower upper); reflexivity.
+Qed.
+
+Section FixVariable.
+  Variable P : lp.
+  Variable j : nat.
+  Variable val : Q.
+  Hypothesis W : wf_lp P.
+  Hypothesis Hj : (j < ncols P)%nat.
+  Let P' := red_FixVariable P j val.
+  Let n1 := (ncols P - 1)%nat.
+
+  Lemma ncols_FixVariable : ncols P' = n1.
+  Proof. unfold P', ncols, red_FixVariable; cbn [cols]. apply swap_remove_length. Qed.
+
+  Lemma nrows_FixVariable : nrows P' = nrows P.
+  Proof. unfold P', nrows, red_FixVariable; cbn [rows]. apply map_length. Qed.
+
+  Lemma colj_FixVariable k : (k < n1)%nat -> colj P' k = if Nat.eqb k j then colj P n1 else colj P k.
+  Proof. intros H. unfold P', colj, red_FixVariable; cbn [cols]. now apply nth_swap_remove. Qed.
+
+  Lemma rowi_FixVariable i :
+    rowi P' i = {| r_lhs := shift_side (r_lhs (rowi P i)) (coef P i j * val);
+                   r_coef := swap_remove 0 j (r_coef (rowi P i));
+                   r_rhs := shift_side (r_rhs (rowi P i)) (coef P i j * val) |}.
+  Proof.
+    unfold P', rowi, red_FixVariable; cbn [rows].
+    set (f := fun rw => {| r_lhs := shift_side (r_lhs rw) (vnth (r_coef rw) j * val);
+                           r_coef := swap_remove 0 j (r_coef rw);
+                           r_rhs := shift_side (r_rhs rw) (vnth (r_coef rw) j * val) |}).
+    change drow with (f drow) at 1. rewrite map_nth. reflexivity.
+  Qed.
+
+  Lemma coef_FixVariable i k : (i < nrows P)%nat -> (k < n1)%nat ->
+    coef P' i k = if Nat.eqb k j then coef P i n1 else coef P i k.
+  Proof.
+    intros Hi Hk. unfold coef at 1. rewrite rowi_FixVariable. cbn [r_coef].
+    rewrite vnth_swap_remove by (rewrite W by auto; exact Hk). rewrite W by auto. reflexivity.
+  Qed.
+
+  Variable c : cmps.
+  Variables lower upper : Q.
+  Let exec t := exec_FixVariable c j n1 val (c_obj (colj P j)) lower upper true (sp_col P j) t.
+
+  Lemma FixVariable_prim t : prim_ident P' t -> prim_ident P (exec t).
+  Proof.
+    intros H i Hi. unfold exec. rewrite exec_FixVariable_eq. unfold gs; cbn [ss sx].
+    unfold sp_col. rewrite vnth_sadd_sp. destruct (Nat.ltb_spec i (nrows P)); [|lia].
+    assert (Hi' : (i < nrows P')%nat) by (rewrite nrows_FixVariable; exact Hi).
+    specialize (H i Hi'). unfold gs in H. rewrite H. unfold activity. rewrite rowi_FixVariable. cbn [r_coef].
+    unfold n1. rewrite <- (W i Hi). rewrite dot_unswap by (rewrite W by auto; exact Hj). unfold coef. reflexivity.
+  Qed.
+
+  Lemma FixVariable_dual t : dual_ident P' t -> dual_ident P (exec t).
+  Proof.
+    intros H k Hk. unfold exec. rewrite exec_FixVariable_eq. unfold gr; cbn [sr sy]. rewrite vnth_unswap.
+    rewrite tvec_sumn.
+    destruct (Nat.eqb_spec k j) as [->|Hkj].
+    - unfold sp_col. rewrite sdot_sp_of. apply Qplus_comp; [reflexivity|]. apply Qopp_comp.
+      apply sumn_ext. intros i _. ring.
+    - assert (G : forall k', (k' < n1)%nat -> vnth (sr t) k' ==
+                c_obj (colj P' k') - sumn (nrows P) (fun i => vnth (sy t) i * coef P' i k')).
+      { intros k' Hk'. assert (Hk'' : (k' < ncols P')%nat) by (rewrite ncols_FixVariable; exact Hk').
+        specialize (H k' Hk''). unfold gr in H. rewrite H, tvec_sumn, nrows_FixVariable. reflexivity. }
+      destruct (Nat.eqb_spec k n1) as [->|Hkn].
+      + assert (Hj1 : (j < n1)%nat) by (unfold n1 in *; lia).
+        rewrite (G j Hj1). rewrite colj_FixVariable by exact Hj1. rewrite Nat.eqb_refl.
+        apply Qplus_comp; [reflexivity|]. apply Qopp_comp. apply sumn_ext. intros i Hi.
+        rewrite coef_FixVariable by auto. rewrite Nat.eqb_refl. reflexivity.
+      + assert (Hk1 : (k < n1)%nat) by (unfold n1 in *; lia).
+        rewrite (G k Hk1). rewrite colj_FixVariable by exact Hk1. destruct (Nat.eqb_spec k j); [lia|].
+        apply Qplus_comp; [reflexivity|]. apply Qopp_comp. apply sumn_ext. intros i Hi.
+        rewrite coef_FixVariable by auto. destruct (Nat.eqb_spec k j); [lia|]. reflexivity.
+  Qed.
+
+  Lemma in_bounds_shift lo up d v : in_bounds (shift_side lo d) (shift_side up d) v -> in_bounds lo up (v + d).
+  Proof. unfold in_bounds. destruct lo, up; simpl; intros [A B]; split; auto; lra. Qed.
+
+  Lemma cs_prop_shift k lo up d v : cs_prop k (shift_side lo d) (shift_side up d) v -> cs_prop k lo up (v + d).
+  Proof.
+    unfold cs_prop. intros [A B]. split; intros Hk.
+    - specialize (A Hk). destruct lo; simpl in *; [lra|exact A].
+    - specialize (B Hk). destruct up; simpl in *; [lra|exact B].
+  Qed.
+
+  Lemma FixVariable_feas t : in_bounds (c_lo (colj P j)) (c_up (colj P j)) val -> prim_feas P' t -> prim_feas P (exec t).
+  Proof.
+    intros Hv [Hc Hr]. unfold exec. rewrite exec_FixVariable_eq. split.
+    - intros k Hk. unfold gx; cbn [sx]. rewrite vnth_unswap.
+      destruct (Nat.eqb_spec k j) as [->|Hkj]; [exact Hv|].
+      destruct (Nat.eqb_spec k n1) as [->|Hkn].
+      + assert (Hj1 : (j < n1)%nat) by (unfold n1 in *; lia).
+        assert (Hj2 : (j < ncols P')%nat) by (rewrite ncols_FixVariable; exact Hj1).
+        specialize (Hc j Hj2). rewrite colj_FixVariable in Hc by exact Hj1. rewrite Nat.eqb_refl in Hc. exact Hc.
+      + assert (Hk1 : (k < n1)%nat) by (unfold n1 in *; lia).
+        assert (Hk2 : (k < ncols P')%nat) by (rewrite ncols_FixVariable; exact Hk1).
+        specialize (Hc k Hk2). rewrite colj_FixVariable in Hc by exact Hk1. destruct (Nat.eqb_spec k j); [lia|]. exact Hc.
+    - intros i Hi. unfold gs; cbn [ss]. unfold sp_col.
+      assert (Hi' : (i < nrows P')%nat) by (rewrite nrows_FixVariable; exact Hi).
+      specialize (Hr i Hi'). rewrite rowi_FixVariable in Hr. cbn [r_lhs r_rhs] in Hr. apply in_bounds_shift in Hr.
+      unfold in_bounds, gs in *. destruct Hr as [A B].
+      assert (E : vnth (sadd (sp_of (fun i0 => coef P i0 j) (nrows P)) val (ss t)) i == vnth (ss t) i + coef P i j * val).
+      { rewrite vnth_sadd_sp. destruct (Nat.ltb_spec i (nrows P)); [reflexivity|lia]. }
+      split.
+      + destruct (r_lhs (rowi P i)); simpl in *; [|exact I]. rewrite E. exact A.
+      + destruct (r_rhs (rowi P i)); simpl in *; [|exact I]. rewrite E. exact B.
+  Qed.
+
+  (* when may column j be fixed at val: its bounds coincide with val, or the column is empty and val is the bound its
+     cost pushes it to (removeEmpty) *)
+  Definition fix_justified : Prop :=
+    (exists l u, c_lo (colj P j) = Some l /\ c_up (colj P j) = Some u /\ l == val /\ u == val) \/
+    ((forall i, coef P i j == 0) /\ cs_prop (c_obj (colj P j)) (c_lo (colj P j)) (c_up (colj P j)) val).
+
+  Lemma FixVariable_signs t : fix_justified -> dual_signs P' t -> dual_signs P (exec t).
+  Proof.
+    intros Hjust [Hc Hr]. unfold exec. rewrite exec_FixVariable_eq. split.
+    - intros k Hk. unfold gx, gr; cbn [sx sr sy]. rewrite !vnth_unswap.
+      destruct (Nat.eqb_spec k j) as [->|Hkj].
+      + destruct Hjust as [(l & u & El & Eu & E1 & E2)|[Hz Hcs]].
+        * rewrite El, Eu. split; intros _; assumption.
+        * assert (E : c_obj (colj P j) - sdot (sp_col P j) (sy t) == c_obj (colj P j)).
+          { unfold sp_col. rewrite sdot_sp_of. rewrite sumn_zero; [ring|]. intros i _. cbv beta. pose proof (Hz i) as Ez. rewrite Ez. ring. }
+          unfold cs_prop in *. rewrite E. exact Hcs.
+      + destruct (Nat.eqb_spec k n1) as [->|Hkn].
+        * assert (Hj1 : (j < n1)%nat) by (unfold n1 in *; lia).
+          assert (Hj2 : (j < ncols P')%nat) by (rewrite ncols_FixVariable; exact Hj1).
+          specialize (Hc j Hj2). rewrite colj_FixVariable in Hc by exact Hj1. rewrite Nat.eqb_refl in Hc. exact Hc.
+        * assert (Hk1 : (k < n1)%nat) by (unfold n1 in *; lia).
+          assert (Hk2 : (k < ncols P')%nat) by (rewrite ncols_FixVariable; exact Hk1).
+          specialize (Hc k Hk2). rewrite colj_FixVariable in Hc by exact Hk1. destruct (Nat.eqb_spec k j); [lia|]. exact Hc.
+    - intros i Hi. unfold gs, gy; cbn [ss sy]. unfold sp_col.
+      assert (Hi' : (i < nrows P')%nat) by (rewrite nrows_FixVariable; exact Hi).
+      specialize (Hr i Hi'). rewrite rowi_FixVariable in Hr. cbn [r_lhs r_rhs] in Hr. apply cs_prop_shift in Hr.
+      unfold gs, gy in Hr.
+      assert (E : vnth (sadd (sp_of (fun i0 => coef P i0 j) (nrows P)) val (ss t)) i == vnth (ss t) i + coef P i j * val).
+      { rewrite vnth_sadd_sp. destruct (Nat.ltb_spec i (nrows P)); [reflexivity|lia]. }
+      unfold cs_prop in *. destruct Hr as [A B]. split; intros Hk.
+      + specialize (A Hk). destruct (r_lhs (rowi P i)); [|exact A]. rewrite E. exact A.
+      + specialize (B Hk). destruct (r_rhs (rowi P i)); [|exact B]. rewrite E. exact B.
+  Qed.
+
+  Lemma FixVariable_count t : basis_count P' t -> basis_count P (exec t).
+  Proof.
+    unfold basis_count, exec. rewrite exec_FixVariable_eq; cbn [scs srs].
+    rewrite ncols_FixVariable, nrows_FixVariable. intros H.
+    replace (ncols P) with (S n1) by (unfold n1; lia).
+    rewrite cntb_sunswap by (unfold n1; lia). unfold b1. rewrite fixvar_status_nonbasic. lia.
+  Qed.
+
+  Lemma objvec_FixVariable : objvec P' = swap_remove 0 j (objvec P).
+  Proof.
+    unfold objvec, P', red_FixVariable, swap_remove; cbn [cols]. rewrite map_map, map_length.
+    apply map_ext. intros k. change 0 with (c_obj dcol). rewrite !map_nth. destruct (Nat.eqb k j); reflexivity.
+  Qed.
+
+  Lemma FixVariable_objective t : objective P (sx (exec t)) == objective P' (sx t).
+  Proof.
+    unfold exec. rewrite exec_FixVariable_eq; cbn [sx]. unfold objective. rewrite objvec_FixVariable.
+    change (offset P') with (offset P + c_obj (colj P j) * val). unfold n1.
+    replace (ncols P) with (length (objvec P)) by (unfold objvec, ncols; apply map_length).
+    rewrite dot_unswap by (unfold objvec; rewrite map_length; exact Hj).
+    assert (E : vnth (objvec P) j = c_obj (colj P j)).
+    { unfold objvec, colj. rewrite vnth_nth. change 0 with (c_obj dcol). apply map_nth. }
+    rewrite E. ring.
+  Qed.
+End FixVariable.
